@@ -325,6 +325,26 @@ func c06Levels(tier string) []core.Level {
 				}
 			}
 		}},
+		{Name: fmt.Sprintf("nested loops to depth %d over lengths 0..3 that all use the same key and value names (also present in the context): the outer element is intact after the inner loop", maxNest), Gen: func(emit func(core.Case)) {
+			for depth := 1; depth <= maxNest; depth++ {
+				lens := make([]int, depth)
+				for {
+					emit(core.Case{Fam: "nestshared", N: append([]int{}, lens...)})
+					j := depth - 1
+					for j >= 0 {
+						lens[j]++
+						if lens[j] <= 3 {
+							break
+						}
+						lens[j] = 0
+						j--
+					}
+					if j < 0 {
+						break
+					}
+				}
+			}
+		}},
 		{Name: "inline 'if': every subset of a sequence of length <= 5 as the satisfying set (key and value printed)", Gen: func(emit func(core.Case)) {
 			for n := 0; n <= 5; n++ {
 				for m := 0; m < 1<<uint(n); m++ {
@@ -435,6 +455,34 @@ func c06Run(c core.Case) core.Result {
 			return s
 		}
 		return c06Compare(sb.String(), nil, rec(0, nil), true)
+	case "nestshared":
+		// nested loops that all use the SAME key and value names: after an inner loop the outer element is intact
+		lens := c.N
+		depth := len(lens)
+		var sb strings.Builder
+		for d := 0; d < depth; d++ {
+			var els []string
+			for i := 1; i <= lens[d]; i++ {
+				els = append(els, itoa(10*(d+1)+i))
+			}
+			sb.WriteString("{% for k, v in [" + strings.Join(els, ", ") + "] %}<{{ k }}:{{ v }}")
+		}
+		for d := depth - 1; d >= 0; d-- {
+			sb.WriteString("|{{ k }}:{{ v }}:{{ loop.index }}>{% endfor %}")
+		}
+		var rec func(d int) string
+		rec = func(d int) string {
+			if d == depth {
+				return ""
+			}
+			s := ""
+			for i := 1; i <= lens[d]; i++ {
+				el := itoa(i-1) + ":" + itoa(10*(d+1)+i)
+				s += "<" + el + rec(d+1) + "|" + el + ":" + itoa(i) + ">"
+			}
+			return s
+		}
+		return c06Compare(sb.String(), map[string]stick.Value{"k": "ck", "v": "cv"}, rec(0), true)
 	case "forif":
 		n, mask, withKey := c.N[0], c.N[1], c.N[2] == 1
 		var els []string
@@ -524,7 +572,7 @@ func init() {
 		ID:       "C06",
 		Category: "exploration",
 		Rule: "if/elseif/else chains with <= 3 conditions over every assignment of 7 condition values (true,false,0,1,'','a',null) x else; nested chains to depth 3 over every truth assignment; one loop printing key, value and all loop metadata over 13 carriers (array / string array / hash literals, ranges, Go []int, []string, [N]int, *[]int, []Value, single-entry map, null) x lengths 0..8 x key variable x else; " +
-			"nested loops to depth 3 (thorough 4) over lengths 0..3 printing index chains through loop.parent; inline 'if' with every subset of a length <= 5 sequence as satisfying set; non-iterables must fail; loop/branch mixes. Expectations are computed by the generator. distinct = distinct (template, context); non-trivial = all",
+			"nested loops to depth 3 (thorough 4) over lengths 0..3 printing index chains through loop.parent, and the same with one key/value name shared by all depths and the context; inline 'if' with every subset of a length <= 5 sequence as satisfying set; non-iterables must fail; loop/branch mixes. Expectations are computed by the generator. distinct = distinct (template, context); non-trivial = all",
 		Assumptions: []string{
 			"loop.parent is the enclosing loop's metadata (loop.parent.index), as pinned by the repository's own test 'For loop with inner loop'",
 			"loop metadata under an inline 'if' and 'else' after a non-empty filtered loop are not claimed (they differ between Twig versions)",
